@@ -34,6 +34,7 @@ def cases(tier, seed):
     n = 260 if tier == "quick" else 2600
     out = [{"id": "stream/%d" % i, "kind": "stream", "seed": [seed, 11, i], "cost": 3} for i in range(n)]
     out += [{"id": "periodic/%d" % i, "kind": "periodic", "seed": [seed, 111, i], "cost": 1} for i in range(n // 3)]
+    out += [{"id": "flag/%d" % i, "kind": "flag", "seed": [seed, 1111, i], "cost": 3} for i in range(max(6, n // 12))]
     return out
 
 
@@ -41,7 +42,7 @@ def targets(tier):
     k = 1 if tier == "quick" else 10
     return {"updates": 60000 * k, "scores_compared": 3000 * k, "drifts": 150 * k, "post_drift_rebuilds": 60 * k,
             "cases_2plus_components": 80 * k, "scaling_on_cases": 40 * k, "scaling_off_cases": 40 * k,
-            "scores:kl": 800 * k, "scores:intersection": 800 * k, "periodic_scores_zero": 300 * k, "periodic_cases_2plus_components": 20 * k}
+            "scores:kl": 800 * k, "scores:intersection": 800 * k, "periodic_scores_zero": 300 * k, "periodic_cases_2plus_components": 20 * k, "flag_twin_runs": 40 * k}
 
 
 def gen_stream(rng, d, n, w):
@@ -67,6 +68,8 @@ def run_case(case, ctx):
     warnings.simplefilter("ignore")
     if case["kind"] == "periodic":
         return run_periodic(case, ctx)
+    if case["kind"] == "flag":
+        return run_flag(case, ctx)
     if "literal" in case:
         kw = dict(case["literal"]["params"])
         data = np.array(case["literal"]["data"], dtype=float)
@@ -80,6 +83,11 @@ def run_case(case, ctx):
                   divergence_metric=str(rng.choice(["kl", "intersection"])), sample_period=sp, online_scaling=bool(rng.integers(0, 2)))
         d = int(rng.integers(2, 7))
         data = gen_stream(rng, d, int(rng.integers(5, 11)) * w, w)
+        if rng.random() < 0.15:
+            # dtype varies along the stream: the first two windows are whole numbers handed over with an integer dtype
+            data[: 2 * w] = np.round(data[: 2 * w] * 2)
+            int_head = 2 * w
+    int_head = locals().get("int_head", 0)
     det = PCACD(**kw)
     sh = Shadow(lambda: PCACDModel(**kw), lambda m: m.state)
     ctx.count("scaling_on_cases" if kw["online_scaling"] else "scaling_off_cases")
@@ -87,7 +95,9 @@ def run_case(case, ctx):
     scored_after_rebuild = False
     for i, x in enumerate(data):
         nsc = len(getattr(det, "_change_score", [0]))
-        det.update(x.reshape(1, -1).copy())
+        det.update(x.reshape(1, -1).astype(np.int64) if i < int_head else x.reshape(1, -1).copy())
+        if i < int_head and i == 0:
+            ctx.count("streams_with_integer_typed_head")
         st = det.drift_state
         cs = getattr(det, "_change_score", None)
         if cs is None:
@@ -178,3 +188,35 @@ def run_periodic(case, ctx):
     ctx.nontrivial = (det.num_pcs or 0) >= 2 and zero >= 2
     ctx.sample = {"kind": "periodic", "params": kw, "features": d, "components": det.num_pcs, "scores_checked": zero}
     ctx.digest = "per-%s-%s" % (sorted(kw.items()), hash(base_win.tobytes()))
+
+
+def run_flag(case, ctx):
+    """online_scaling given as a truthy / falsy value that is not the literal True / False (numpy bool, 0 / 1 from a parameter grid):
+    whatever mode the detector takes it for, the run must coincide with the literal-True run or with the literal-False run - never
+    a mixture of the two modes"""
+    rng = gen.rng_for(case["seed"])
+    w = int(rng.choice([20, 30]))
+    kw = dict(window_size=w, ev_threshold=float(rng.choice([0.8, 0.95, 0.99])), delta=float(rng.choice([0.005, 0.05])),
+              divergence_metric=str(rng.choice(["kl", "intersection"])), sample_period=0.1)
+    d = int(rng.integers(2, 5))
+    data = gen_stream(rng, d, 7 * w, w) * 3.0 + 5.0  # location / scale far from (0, 1) so that the two modes differ
+
+    def trace(flag):
+        det = PCACD(online_scaling=flag, **kw)
+        out = []
+        for x in data:
+            det.update(x.reshape(1, -1).copy())
+            out.append((det.drift_state, det.samples_since_reset, len(det._change_score), round(float(det._change_score[-1]), 9)))
+        return out
+
+    t_on, t_off = trace(True), trace(False)
+    for flag in (np.True_, np.False_, 1, 0):
+        t = trace(flag)
+        ctx.count("flag_twin_runs")
+        if t != t_on and t != t_off:
+            ctx.violation("C11/online_scaling_mode_mixture", "online_scaling=%r gives a run that equals neither the online_scaling=True run nor the "
+                          "online_scaling=False run" % (flag,), params=dict(kw, online_scaling=repr(flag)))
+            return
+    ctx.nontrivial = t_on != t_off
+    ctx.sample = {"kind": "online_scaling flag twins", "params": kw, "samples": len(data), "modes_differ": t_on != t_off}
+    ctx.digest = "flag-%s-%s" % (sorted(kw.items()), hash(data.tobytes()))
